@@ -33,7 +33,7 @@ def build():
         r matches Ok(s) ==> s@ == acme_value(*cnf, opt@, opt_file@, old(w).stdin), //@C16.input_value_is_the_option_or_the_file_or_stdin
         r is Ok ==> final(w).stdin == stdin_after(*cnf, opt@, opt_file@, old(w).stdin), //@C16.reading_a_value_takes_one_line_of_stdin_and_no_more
 """, rewrites=[opt_as_str, get_one])})
-    u.verify(M, "init", "", props=["C16"], fns={"init": FnSpec(ret="r", ghost=True, body_start="let ghost stdin0 = w.stdin;", rewrites=[
+    u.verify(M, "init", "", props=["C16", "C17"], fns={"init": FnSpec(ret="r", ghost=True, names={"laddr": r"server_start\(\s*&?(\w+)"}, body_start="let ghost stdin0 = w.stdin;", rewrites=[
         opt_as_str, get_one,
         ("T-ANYHOW", r"anyhow!\((?P<e>\w+)\)", r"crate::anyhow::from_err(\g<e>)", None),
         ("T-PARSE", r"alg\s*\.parse\(\)", "crate::shims::parse_named(alg)", None),
@@ -46,6 +46,8 @@ def build():
         assert(crate::shims::acme_common::idna_spec(acme_value(*cnf, "domain"@, "domain-file"@, stdin0)) == Some(cert.domain@)); //@C16.served_certificate_is_for_the_a_label_form_of_the_requested_domain
         assert(cert.ext@ == acme_value(*cnf, "acme-ext"@, "acme-ext-file"@, stdin_after(*cnf, "domain"@, "domain-file"@, stdin0))); //@C16.served_certificate_carries_the_requested_extension
         assert(cert.key@ == pk.id@); //@C16.served_key_is_the_certificate_key
+        // the address listened on is the one asked for (`--listen`), character for character (a unix socket path is case sensitive), else the default
+        assert($laddr@ == (match arg_of(*cnf, "listen"@) { Some(v) => v@, None => crate::DEFAULT_LISTEN_ADDR@ })); //@C16.listens_on_the_address_asked_for,C17.listens_on_the_address_asked_for
     }""")])})
     return u
 
